@@ -1023,8 +1023,8 @@ def draw_line(labels, pt0, pt1, value=1):
     Uses the Bresenham algorithm
     Some code transcribed from http://www.cs.unc.edu/~mcmillan/comp136/Lecture6/Lines.html
     """
-    y0, x0 = pt0
-    y1, x1 = pt1
+    y0, x0 = [int(_) for _ in pt0]
+    y1, x1 = [int(_) for _ in pt1]
     diff_y = abs(y1 - y0)
     diff_x = abs(x1 - x0)
     x = x0
